@@ -215,12 +215,18 @@ def allof_required(rep, d) -> None:
         "EarlierMember": ({"allOf": [{"type": "object", "required": ["n"]}, {"type": "object", "properties": {"n": S, "m": S}}]}, {"n": True, "m": False}),
         "TopLevelRequired": ({"required": ["n"], "allOf": [R("Base"), {"type": "object", "properties": {"n": S}}]}, {"n": True, "id": True, "email": False}),
         "TopLevelProps": ({"type": "object", "properties": {"n": S, "m": S}, "allOf": [{"type": "object", "required": ["n"]}]}, {"n": True, "m": False}),
+        # `required` naming an INHERITED property that is not re-declared: mandatory in the derived model, and the base model stays as it is
+        "InheritedRequired": ({"allOf": [R("Base"), {"type": "object", "required": ["email"], "properties": {"n": S}}]}, {"id": True, "email": True, "n": False}),
+        "InheritedRequiredTop": ({"required": ["email"], "allOf": [R("Base"), {"type": "object", "properties": {"n": S}}]}, {"id": True, "email": True, "n": False}),
+        "OtherChild": ({"allOf": [R("Base"), {"type": "object", "properties": {"o": S}}]}, {"id": True, "email": False, "o": False}),
+        "Base": (base["Base"], {"id": True, "email": False}),
         "RedeclaredOptional": ({"allOf": [R("Base"), {"type": "object", "properties": {"id": {"type": "integer"}}}]}, {"id": True, "email": False}),
         "Plain": ({"type": "object", "required": ["a"], "properties": {"a": S, "b": S, "c": {"type": "string", "default": "x"}, "dflt": {"type": "integer", "default": 3}},
                    }, {"a": True, "b": False, "c": False, "dflt": False}),
         "RequiredWithDefault": ({"type": "object", "required": ["a", "b"], "properties": {"a": {"type": "string", "default": "x"}, "b": S}}, {"a": False, "b": True}),
     }
-    doc = gen.mkdoc(schemas={**base, **{k: v[0] for k, v in fam.items()}})
+    # the base is declared first and the tightening children right after it, the other child and the base's own expectations last
+    doc = gen.mkdoc(schemas={**base, **{k: v[0] for k, v in fam.items() if k != "Base"}})
     g = gen.generate(doc, d / "ar")
     if g["exc"] or g["rejected"] or g["diags"]:
         rep.violate("C10/allof-family-not-generated", f"{g['exc'] or g['diags'][:2]}", doc=doc)
